@@ -161,9 +161,13 @@ func (c *Ctx) collectFns() {
 				if cc != nil && cc.IsInvoke() {
 					gInvoked[cc.Method.Name()] = true
 				}
+				mc, isMC := i.(*ssa.MakeClosure)
 				for _, op := range i.Operands(nil) {
 					if op == nil || *op == nil || (cc != nil && !cc.IsInvoke() && *op == cc.Value) {
 						continue
+					}
+					if isMC && *op == mc.Fn {
+						continue // making the closure is not a use of it; uses of the closure VALUE count
 					}
 					switch x := (*op).(type) {
 					case *ssa.Function:
